@@ -385,6 +385,19 @@ def run(ctx, rep):
         else:
             missing = [s for x in alts for s in x.rhs if s in by_lhs and not sets_pos(s)]
             rep.violation("C16.7", cons, f"raise_error() is called but no set_pos() precedes it (neither here nor in {sorted(set(missing)) or 'any right-hand-side action'}): the JaqalParseError carries the position of whatever statement last recorded one", p.func.loc())
+    # an index that may legitimately be 0 must not be defaulted with `or`
+    for name, lst in pcls.methods_all.items():
+        for fi in lst:
+            a = fi.node.args
+            pos = a.posonlyargs + a.args
+            none_defaults = {arg.arg for arg, d in zip(pos[len(pos) - len(a.defaults):], a.defaults) if isinstance(d, ast.Constant) and d.value is None}
+            for n in walk_no_nested(fi.node):
+                if isinstance(n, ast.BoolOp) and isinstance(n.op, ast.Or) and isinstance(n.values[0], ast.Name) and n.values[0].id in none_defaults:
+                    var = n.values[0].id
+                    arith = any(isinstance(m, ast.BinOp) and var in {x.id for x in ast.walk(m) if isinstance(x, ast.Name)} for m in walk_no_nested(fi.node)) or any(isinstance(m, ast.Call) and any(isinstance(x, ast.Name) and x.id == var for arg_ in m.args for x in ast.walk(arg_)) for m in walk_no_nested(fi.node))
+                    cons = construct_of(fi, f"or-default:{var}")
+                    if arith and ("index" in var or "col" in var or "pos" in var):
+                        rep.violation("C16.7", cons, f"`{ast.unparse(n)}` replaces the legitimate value 0 of `{var}` by the default: an error at the very first character of the text is reported at the position of an earlier statement / column 2", f"{fi.path}:{n.lineno}", witness="] foo")
     # JaqalParseError constructions pass a non-constant line
     for name, lst in pcls.methods_all.items():
         for fi in lst:
@@ -568,6 +581,60 @@ def run(ctx, rep):
                     rep.violation("C16.10", cons, f"`if not {var}: raise` validates `{var}` before `{ast.unparse(after[0])}` shortens it: the value used afterwards can be empty although the guard passed (e.g. the module name `.`), and the failure surfaces later as a different exception type", f"{f.path}:{after[0].lineno}")
                 else:
                     rep.ok("C16.10", cons, "the guard follows every shortening of the value", f"{f.path}:{st.lineno}")
+
+
+    # ------------------------------------------------------------ C16.11
+    rep.rule("C16.11", "every while loop changes something its condition depends on (or has an explicit exit)", floor=5)
+    for q in ea.reachable:
+        f = ix.functions[q]
+        if isinstance(f.node, ast.Lambda):
+            continue
+        for st in iter_stmts(f.body):
+            if not isinstance(st, ast.While):
+                continue
+            cons = construct_of(f, f"while:{ast.unparse(st.test)[:40]}")
+            loc = f"{f.path}:{st.lineno}"
+            cond_names = {n.id for n in ast.walk(st.test) if isinstance(n, ast.Name)} - {"isinstance", "len", "True", "False", "None"}
+            cond_attrs = {(n.value.id, n.attr) for n in ast.walk(st.test) if isinstance(n, ast.Attribute) and isinstance(n.value, ast.Name)}
+            has_exit = any(isinstance(x, (ast.Break, ast.Return, ast.Raise)) for x in iter_stmts(st.body))
+            changed = False
+            for x in iter_stmts(st.body):
+                tgts = []
+                if isinstance(x, ast.Assign):
+                    tgts = x.targets
+                elif isinstance(x, (ast.AugAssign, ast.AnnAssign)):
+                    tgts = [x.target]
+                elif isinstance(x, (ast.For,)):
+                    tgts = [x.target]
+                for t in tgts:
+                    for n in ast.walk(t):
+                        if isinstance(n, ast.Name) and n.id in cond_names:
+                            changed = True
+                        if isinstance(n, ast.Attribute) and isinstance(n.value, ast.Name) and (n.value.id, n.attr) in cond_attrs:
+                            changed = True
+                        if isinstance(n, ast.Subscript):
+                            b = n.value
+                            while isinstance(b, (ast.Subscript, ast.Attribute)):
+                                b = b.value
+                            if isinstance(b, ast.Name) and b.id in cond_names:
+                                changed = True
+            # calls that may mutate the objects the condition reads: method calls on them, or any self method when the condition reads self state
+            for x in ast.walk(ast.Module(body=st.body, type_ignores=[])):
+                if isinstance(x, ast.Call) and isinstance(x.func, ast.Attribute):
+                    b = x.func.value
+                    while isinstance(b, (ast.Attribute, ast.Subscript)):
+                        b = b.value
+                    if isinstance(b, ast.Name) and b.id in cond_names and (x.func.attr in ("pop", "append", "remove", "clear", "update", "add", "popleft", "extend", "discard") or (f.params and b.id == f.params[0])):
+                        changed = True
+            if isinstance(st.test, ast.Constant) and st.test.value:
+                if has_exit:
+                    rep.ok("C16.11", cons, "`while True` with an explicit exit", loc)
+                else:
+                    rep.violation("C16.11", cons, "`while True` without break/return/raise: the call never returns", loc)
+            elif changed or has_exit:
+                rep.ok("C16.11", cons, "the body changes what the condition reads" if changed else "explicit exit in the body", loc)
+            else:
+                rep.violation("C16.11", cons, f"nothing the condition `{ast.unparse(st.test)}` depends on is assigned or mutated in the loop body, and the body has no explicit exit: if the condition holds once, the loop never ends (the sibling loops assign the resolved value back)", loc)
 
 
 KNOWN_SUBMODULES = {
